@@ -10,10 +10,11 @@ pub struct Prop {
 
 pub mod c03;
 pub mod c05;
+pub mod c08;
 pub mod c11;
 pub mod c14;
 
-pub static ALL: &[Prop] = &[c03::PROP, c05::PROP, c11::PROP, c14::PROP];
+pub static ALL: &[Prop] = &[c03::PROP, c05::PROP, c08::PROP, c11::PROP, c14::PROP];
 
 /// Internal sub-commands (child processes of a check).
 pub fn internal(_cmd: &str, _args: &[String]) -> Option<i32> {
